@@ -82,6 +82,7 @@ func (h *c17h) monitorOp(f []string, obs string, pre *c17snap, preDigest string)
 	h.monitorEscrow(post)
 	h.monitorIndexes()
 	h.monitorAliases()
+	h.monitorOrders(f, obs, pre, post)
 	if ok && isMsg {
 		h.monitorAuth(f, pre, post)
 		h.monitorLedger(f, pre, post)
@@ -257,6 +258,158 @@ func (h *c17h) monitorAliases() {
 	}
 	if n != len(fwd) {
 		h.violate("C17/alias_bijection/alias-listed-without-reverse-record", fmt.Sprintf("%d listed, %d reverse records", len(fwd), n))
+	}
+}
+
+// ---- sell orders belong to the ownership period they were placed in --------------------------------
+
+// c17placed: one entry of the monitors' shadow of the open sell orders.  It is written from the op
+// lines only (an accepted `sell a n|l id …` line: a placed it), never from the order records.
+type c17placed struct {
+	by    string // account that sent the accepted `sell` line
+	epoch int    // ownership period of the asset at that moment
+}
+
+// ownerOf: the account that owns the asset in a snapshot ("" when nobody does): the owner of the
+// Dym-Name record / the owner of the RollApp the alias maps to.
+func (h *c17h) ownerOf(s *c17snap, key string) string {
+	i := c17atoi(key[1:])
+	if key[0] == 'n' {
+		if d, ok := s.names[i]; ok {
+			return d.Owner
+		}
+		return ""
+	}
+	if c, ok := s.alias[i]; ok {
+		return s.rolls[c].Owner
+	}
+	return ""
+}
+
+// holder: what an ownership period is counted by (for an alias also the RollApp it belongs to)
+func (h *c17h) holder(s *c17snap, key string) string {
+	o := h.ownerOf(s, key)
+	if key[0] == 'l' && o != "" {
+		return o + "@" + strconv.Itoa(s.alias[c17atoi(key[1:])])
+	}
+	return o
+}
+
+func (h *c17h) assetKeys() []string {
+	var ks []string
+	for i := 0; i < h.nN; i++ {
+		ks = append(ks, "n"+strconv.Itoa(i))
+	}
+	for i := 0; i < h.nL; i++ {
+		ks = append(ks, "l"+strconv.Itoa(i))
+	}
+	return ks
+}
+
+// monitorOrders — evaluated on the real keeper state after every op, against the shadow h.placed /
+// h.epoch kept from the op lines:
+//
+//	refund_full  "a pruned bid is refunded in full to its maker": when a Dym-Name passes to another
+//	             owner otherwise than through its own Sell-Order (take-over by registration, accepted
+//	             offer, transfer), the Sell-Order it had is gone afterwards, and a take-over pays the
+//	             order's highest bidder exactly the bid
+//	sale_exact   "the asset goes to exactly the winning bidder of the OWNER's sale": an order that
+//	             completes was placed by the account that owns the asset now, in the current
+//	             ownership period (no order outlives an ownership change)
+//	owner_auth   "only the owner can change an unexpired name": after every op, every stored
+//	             Sell-Order is on an asset whose current owner is the account that placed it
+func (h *c17h) monitorOrders(f []string, obs string, pre, post *c17snap) {
+	line := strings.Join(f, " ")
+	op := f[0]
+	ok := obs == "ok"
+	boKey := func(bo dymnstypes.BuyOrder) string {
+		if bo.AssetType == dymnstypes.TypeAlias {
+			return "l" + strconv.Itoa(h.aliasID[bo.AssetId])
+		}
+		return "n" + strconv.Itoa(h.nameID[bo.AssetId])
+	}
+	if ok && (op == "abo" || op == "cbo") {
+		if bo, was := pre.bos[f[2]]; was && h.boEpoch[bo.Id] != h.epoch[boKey(bo)] {
+			if _, still := post.bos[bo.Id]; !still {
+				h.r.Hit(map[string]string{"abo": "offer-accepted-by-a-later-owner-", "cbo": "offer-cancelled-after-ownership-change-"}[op] + boKey(bo)[:1])
+			}
+		}
+	}
+	defer func() {
+		for id, bo := range post.bos {
+			if _, was := pre.bos[id]; !was {
+				h.boEpoch[id] = h.epoch[boKey(bo)]
+			}
+		}
+	}()
+	for _, key := range h.assetKeys() {
+		i := c17atoi(key[1:])
+		preSO, had := pre.nameSO[i]
+		_, has := post.nameSO[i]
+		if key[0] == 'l' {
+			preSO, had = pre.alSO[i]
+			_, has = post.alSO[i]
+		}
+		changed := h.holder(pre, key) != h.holder(post, key)
+		onThis := len(f) > 3 && f[2] == key[:1] && f[3] == key[1:]
+		through := ok && (op == "comp" || op == "buy") && onThis
+		if had && !has && through {
+			// the order finished by this op (sale, or forced refund): it must be the current owner's
+			pl, tracked := h.placed[key]
+			if owner := h.ownerOf(pre, key); !tracked || pl.by != owner || pl.epoch != h.epoch[key] {
+				by := "nobody (no accepted sell line since the asset changed hands)"
+				if tracked {
+					by = "a" + h.acct(pl.by) + " in ownership period " + strconv.Itoa(pl.epoch)
+				}
+				h.violate("C17/sale_exact/completed-order-not-placed-by-current-owner",
+					fmt.Sprintf("%s: the order on %s was placed by %s; owner before the op a%s, ownership period %d", line, key, by, h.acct(owner), h.epoch[key]))
+			}
+		}
+		if changed && had && !through {
+			// the asset changed hands otherwise than through its order: the order is pruned
+			if has {
+				h.violate("C17/refund_full/sell-order-outlives-ownership-change",
+					fmt.Sprintf("%s: %s passed from a%s to a%s, its sell order is still stored", line, key, h.acct(h.ownerOf(pre, key)), h.acct(h.ownerOf(post, key))))
+			}
+			if b := preSO.HighestBid; b != nil && op == "reg" && key[0] == 'n' {
+				if id, known := h.acctID[b.Bidder]; known {
+					want := new(big.Int).Set(b.Price.Amount.BigInt())
+					if b.Bidder == c17Acct(c17atoi(f[1])) {
+						fee, _ := new(big.Int).SetString(f[4], 10)
+						want.Sub(want, fee)
+					}
+					got := new(big.Int).Sub(post.bal[id].BigInt(), pre.bal[id].BigInt())
+					if got.Cmp(want) != 0 {
+						h.violate("C17/refund_full/pruned-bid-not-refunded-at-take-over",
+							fmt.Sprintf("%s: the order on %s held a bid of %s by a%d; a%d's balance changed by %s, expected %s", line, key, b.Price.Amount, id, id, got, want))
+					}
+				}
+			}
+		}
+		if changed {
+			h.epoch[key]++
+		}
+		switch {
+		case !has:
+			delete(h.placed, key)
+		case !had && ok && op == "sell" && onThis:
+			h.placed[key] = c17placed{c17Acct(c17atoi(f[1])), h.epoch[key]}
+		}
+		if has {
+			pl, tracked := h.placed[key]
+			owner := h.ownerOf(post, key)
+			switch {
+			case owner == "":
+				h.violate("C17/owner_auth/sell-order-on-asset-without-owner", line+": "+key)
+			case !tracked || pl.by != owner || pl.epoch != h.epoch[key]:
+				by := "nobody"
+				if tracked {
+					by = "a" + h.acct(pl.by) + " in ownership period " + strconv.Itoa(pl.epoch)
+				}
+				h.violate("C17/owner_auth/sell-order-not-placed-by-current-owner",
+					fmt.Sprintf("%s: %s is owned by a%s (ownership period %d), its stored sell order was placed by %s", line, key, h.acct(owner), h.epoch[key], by))
+			}
+		}
 	}
 }
 
@@ -608,6 +761,29 @@ func (h *c17h) branches(f []string, pre, post *c17snap) {
 				hit("prune-removes-sell-order")
 				if so.HighestBid != nil {
 					hit("prune-refunds-bid")
+				}
+			}
+			// the histories of the directed traces / follow-up scripts (c17_directed_test.go)
+			kind := "extend"
+			switch {
+			case d.Owner != c17Acct(c17atoi(f[1])):
+				kind = "take-over"
+			case pre.expired(d):
+				kind = "renew"
+			}
+			if so.HighestBid != nil {
+				hit(kind + "-with-uncompleted-bid-pending")
+			} else {
+				hit(kind + "-with-bidless-sell-order-pending")
+			}
+		}
+		if had && d.Owner != c17Acct(c17atoi(f[1])) {
+			for _, bo := range pre.bos {
+				if bo.AssetType == dymnstypes.TypeName && bo.AssetId == c17Name(i) {
+					hit("take-over-with-open-offer")
+					if bo.Buyer == c17Acct(c17atoi(f[1])) {
+						hit("take-over-by-the-maker-of-an-open-offer")
+					}
 				}
 			}
 		}
